@@ -48,7 +48,7 @@ C03_DcLossless == (C.conv /\ ~AC) => /\ \A b \in OnBranches : Branch[b].kind # "
 Vm(b) == C.bus.vm[b + 1]
 C04_ExtGridSetpoint == C.conv => /\ (AC => Vm(0) = C.inp.e0.vm)
                                  /\ AbsI(C.bus.va[1] - C.inp.e0.va) <= 1
-Gens == {g \in {"g0", "g1", "g2"} : On(cfg, g)}
+Gens == {g \in {"g0", "g1", "g2", "g3"} : On(cfg, g)}
 GenBus(g) == Node[g].bus
 \* total reactive power of the gens at one bus against their total limits (several gens on a bus share the bus)
 QSum(b) == SumSet({g \in Gens : GenBus(g) = b}, [g \in {g \in Gens : GenBus(g) = b} |-> C.node[g].q])
@@ -86,8 +86,8 @@ C04_ShuntLaw == (C.conv /\ AC /\ On(cfg, "sh0")) => (ShuntOK("p") /\ ShuntOK("q"
 \* participants and their deviation from the setpoint: ext_grid (setpoint 0), gens (p * scaling), xward (ps_mw at its internal gen
 \* is NOT a result column; the xward takes part through its internal generator: deviation = result - consumption at the bus
 \* is not observable from the result table, so the xward is checked through the balance only)
-Part == {n \in {"e0", "g0", "g1", "g2"} : On(cfg, n) /\ C.inp[n].w > 0}
-NonPart == {n \in {"g0", "g1", "g2"} : On(cfg, n) /\ C.inp[n].w = 0}
+Part == {n \in {"e0", "g0", "g1", "g2", "g3"} : On(cfg, n) /\ C.inp[n].w > 0}
+NonPart == {n \in {"g0", "g1", "g2", "g3"} : On(cfg, n) /\ C.inp[n].w = 0}
 Dev(n) == IF n = "e0" THEN C.node.e0.p ELSE C.node[n].p - (C.inp[n].p \div 1000) * (C.inp[n].sc \div 1000)
 C10_Proportional == (C.conv /\ AC /\ cfg.dslack) => \A a \in Part, b \in Part : AbsI(Dev(a) * C.inp[b].w - Dev(b) * C.inp[a].w) <= 20 * (C.inp[a].w + C.inp[b].w)
 C10_NonParticipantsKeepSetpoint == (C.conv /\ AC /\ cfg.dslack) => \A n \in NonPart : AbsI(Dev(n)) <= 5
